@@ -34,22 +34,75 @@ RULE = ('whole histories (set_value / evaluate(addr(s), iterations, tolerance)) 
         'random 2-4 cell contracting systems incl. cycles through SUM(range), non-contracting and degenerate '
         'configurations, random acyclic workbooks with ranges under set_value histories, the shipped circular.xlsx; '
         'workbooks without and with stored results, configuration by cycles=True / cycles=dict / workbook settings; '
-        'passes observed through a counting plugin function. Non-trivial = at least one evaluate reaches a formula.')
+        'exact ties of close_enough (change = (1+rel)*tol, = tol, one unit either side); reference-returning formulas '
+        '(OFFSET, INDIRECT as the whole formula) beside and inside the cycle and read through a range built during the '
+        'pass — the constructs through which evaluation can re-enter the public API / the shared tracker mid-pass; '
+        'passes observed through a counting plugin function; every evaluate runs under a 5 s watchdog (a run that '
+        'does not return is reported as a failing input). Non-trivial = at least one evaluate reaches a formula.')
 ASSUMPTIONS = [
     'values are numbers or blank; formulas are +,-,*,SUM(range),IF(a=b|a<b,…) over cells (all eager in pycel)',
     'float arithmetic of the implementation is compared with exact rationals up to a relative 1e-9; tolerances and '
     'coefficients are dyadic so that pass-count decisions are exact except on sub-ulp ties',
     'set_value only on input cells; targets are single cells or lists of single cells',
+    'the Lean model has no computed references: a reference-valued formula naming an INPUT cell is modelled as a plain '
+    'read of it (exact correspondence); one naming a FORMULA cell is an oracle-only case (bucket reent:oracle-only: '
+    'pass bound through the plugin count, termination under the watchdog, no exception), not compared with the model',
     'one thread; the tracker is thread-local and shared by all compilers of the thread (cleared at each pass start)',
 ]
 TRUSTED = ['modelled, not verified: compilation of a formula to its read order (Python left-to-right evaluation), '
            'openpyxl workbook access, IEEE arithmetic']
-REQUIRED_BUCKETS = ['tie', 'lin:nodata', 'lin:stored', 'lin:range', 'acyc', 'acyc:range', 'fixture', 'odd', 'lin:dictcfg',
-                    'lin:wbcfg']
+REQUIRED_BUCKETS = ['tie', 'reent', 'reent:oracle-only', 'lin:nodata', 'lin:stored', 'lin:range', 'acyc', 'acyc:range',
+                    'fixture', 'odd', 'lin:dictcfg', 'lin:wbcfg']
 PLUGIN = 'harness.props.c06'
 
 _COUNT = [0]
 sys.set_int_max_str_digits(0)     # exact rationals of long non-converging runs have many digits
+
+
+class _Timeout(BaseException):
+    """raised by the watchdog inside a non-terminating evaluate (BaseException: pycel's `except Exception` clauses
+    must not swallow it)"""
+
+
+_WATCHDOG_S = [5.0]
+
+
+class _watchdog:
+    """every evaluate runs under a 5 s interval timer (solo cost: milliseconds); after the first timeout of a run the
+    budget drops to 1.5 s so that a change that makes many cases hang still ends the check quickly"""
+
+    def __enter__(self):
+        import signal
+
+        def on_alarm(*_):
+            raise _Timeout()
+        self._old = signal.signal(signal.SIGALRM, on_alarm)
+        signal.setitimer(signal.ITIMER_REAL, _WATCHDOG_S[0])
+
+    def __exit__(self, et, ev, tb):
+        import signal
+        signal.setitimer(signal.ITIMER_REAL, 0)
+        signal.signal(signal.SIGALRM, self._old)
+        if et is _Timeout:
+            _WATCHDOG_S[0] = 1.5
+        return False
+
+
+_OTHER = []
+
+
+def handover(x):
+    """plugin function HANDOVER(x): returns its argument after ANOTHER THREAD has run a complete iterative evaluation
+    of an unrelated workbook (A1 = 0.5*B1 + 1, B1 = A1) — a deterministic 'second evaluation in the middle of a
+    pass'.  With a per-thread tracker this is invisible to the evaluation in progress."""
+    import threading
+    if not _OTHER:
+        _OTHER.append(pyc.compiler_from({'Sheet1!A1': '=0.5*B1+1', 'Sheet1!B1': '=A1'},
+                                        cycles={'iterations': 50, 'tolerance': 1e-6}))
+    t = threading.Thread(target=lambda: _OTHER[0].evaluate('Sheet1!A1'))
+    t.start()
+    t.join()
+    return x
 
 
 def count_pass(x):
@@ -90,6 +143,9 @@ def expr_text(e, cells):
         return cells[e[1]]['a']
     if k == 'S':
         return f'SUM({e[2]})'
+    if k == 'O':        # a formula part that evaluates to a REFERENCE to cell e[2]
+        a = cells[e[2]]['a']
+        return f'OFFSET({a},0,0)' if e[1] == 'offset' else f'INDIRECT("{a}")'
     if k in '+-*':
         return f'({expr_text(e[1], cells)}{k}{expr_text(e[2], cells)})'
     if k in 'EL':
@@ -98,6 +154,8 @@ def expr_text(e, cells):
                 f'{expr_text(e[3], cells)},{expr_text(e[4], cells)})')
     if k == 'P':
         return f'COUNT_PASS({expr_text(e[1], cells)})'
+    if k == 'H':
+        return f'HANDOVER({expr_text(e[1], cells)})'
     raise ValueError(k)
 
 
@@ -105,6 +163,8 @@ def expr_toks(e):
     k = e[0]
     if k == 'n':
         return [e[1]]
+    if k == 'O':
+        return [f'r{e[2]}']
     if k == 'r':
         return [f'r{e[1]}']
     if k == 'S':
@@ -113,7 +173,7 @@ def expr_toks(e):
         return [k] + expr_toks(e[1]) + expr_toks(e[2])
     if k in 'EL':
         return [k] + expr_toks(e[1]) + expr_toks(e[2]) + expr_toks(e[3]) + expr_toks(e[4])
-    if k == 'P':
+    if k in 'PH':        # both plugin functions return their argument
         return ['P'] + expr_toks(e[1])
     raise ValueError(k)
 
@@ -122,6 +182,8 @@ def expr_reads(e):
     k = e[0]
     if k == 'n':
         return []
+    if k == 'O':
+        return [e[2]]
     if k == 'r':
         return [e[1]]
     if k == 'S':
@@ -133,7 +195,7 @@ def expr_reads(e):
 
 
 def has_range(e):
-    return e[0] == 'S' or (e[0] not in 'nr' and any(has_range(s) for s in e[1:]))
+    return e[0] == 'S' or (e[0] not in 'nrO' and any(has_range(s) for s in e[1:]))
 
 
 # ---------------------------------------------------------------------------------------------------------------
@@ -219,7 +281,12 @@ def impl(case):
         if op.get('tol') is not None:
             kw['tolerance'] = _py(op['tol'])
         _COUNT[0] = 0
-        res = comp.evaluate(addrs[0] if len(addrs) == 1 else addrs, **kw)
+        try:
+            with _watchdog():
+                res = comp.evaluate(addrs[0] if len(addrs) == 1 else addrs, **kw)
+        except _Timeout:
+            return (f'!timeout: evaluate({",".join(addrs)}, {kw}) did not return within {_WATCHDOG_S[0]} s '
+                    f'({_COUNT[0]} passes counted so far)')
         if len(addrs) == 1:
             res = (res,)
         n = _COUNT[0] if op.get('cnt') is not None else 0
@@ -236,6 +303,9 @@ def _needed(e, out):
     elif k == 'S':
         if ('R', tuple(e[1])) not in out:
             out.append(('R', tuple(e[1])))
+    elif k == 'O':
+        if e[1] == 'offset' and ('c', e[2]) not in out:      # INDIRECT("A2") names no address at build time
+            out.append(('c', e[2]))
     elif k != 'n':
         for sub in e[1:]:
             _needed(sub, out)
@@ -278,6 +348,8 @@ def build_pre(case, st, target):
 
 
 def model_lines(case):
+    if case.get('oracle_only'):
+        return ['ping']      # no model (computed references to formula cells): answered 'pong', oracles only
     cfg = case['cfg']
     toks = ['c06', 'cfg', '_' if cfg['it'] is None else str(cfg['it']), cfg['tol'] or '_', 'cells',
             str(len(case['cells']))]
@@ -313,6 +385,8 @@ def _split(out):
 
 
 def same(a, b):
+    if b == 'pong':
+        return True          # oracle-only case
     if a is None or b is None or a.startswith('!') or b.startswith('!'):
         return a == b
     try:
@@ -726,9 +800,97 @@ def tie_cases():
                                    stored=[Fraction(0), Fraction(0)], fam='tie')
 
 
+def reent_cases(rng, extra):
+    """Constructs through which evaluation can RE-ENTER the public API / the shared tracker in the middle of a pass:
+    cells whose whole formula evaluates to a reference (OFFSET, INDIRECT), placed beside and inside the cycle, also
+    read through a range that is built during the pass.  When the reference names an input cell the model treats it
+    as a plain read (exact correspondence of values and pass counts); when it names a formula cell the case is
+    oracle-only (pass bound, termination, no exception) — the Lean model has no computed references."""
+    tiny = 'n:1/1000000000'
+    grid = [(1, tiny), (2, tiny), (3, tiny), (5, tiny), (3, None), (None, 'n:1/1024'), (7, 'n:1/8')]
+
+    def ev_all(cnt, targets, grid_):
+        return [_ev(targets, it, tol, cnt) for it, tol in grid_]
+
+    for kind in ('offset', 'indirect'):
+        for mode in ('nodata', 'stored'):
+            z = (lambda v: 'z') if mode == 'nodata' else (lambda v: tok_of(v))
+            for cfg in (_cfg(), _cfg('dict', 100, 'n:1/1024')):
+                # (a) beside the cycle: A1, A2 inputs; A3 = 0.5*A3 + A1 (counted); A4 -> ref A2; A5 = A3 + A4
+                cells = [{'a': 'A1', 'v': 'n:1/1'}, {'a': 'A2', 'v': 'n:7/1'},
+                         {'a': 'A3', 'f': ['P', ['+', ['*', ['n', 'n:1/2'], ['r', 2]], ['r', 0]]], 'v': z(0)},
+                         {'a': 'A4', 'f': ['O', kind, 1], 'v': z(7)},
+                         {'a': 'A5', 'f': ['+', ['r', 2], ['r', 3]], 'v': z(0)}]
+                yield {'fam': 'reent', 'cells': cells, 'mode': mode, 'cfg': cfg,
+                       'ops': ev_all(2, [4], grid) + [_set(1, 9), _ev([4, 3], 2, tiny, 2)]}
+                # (b) a cell that never converges: A3 = A3 + 1 (counted), A5 = A3 + A4: only the limit stops it
+                cells = [{'a': 'A1', 'v': 'n:1/1'}, {'a': 'A2', 'v': 'n:7/1'},
+                         {'a': 'A3', 'f': ['P', ['+', ['r', 2], ['n', 'n:1/1']]], 'v': z(0)},
+                         {'a': 'A4', 'f': ['O', kind, 1], 'v': z(7)},
+                         {'a': 'A5', 'f': ['+', ['r', 2], ['r', 3]], 'v': z(0)}]
+                yield {'fam': 'reent', 'cells': cells, 'mode': mode, 'cfg': cfg,
+                       'ops': [_ev([4], 5, None, 2), _ev([3, 4], 2, None, 2), _ev([4], 1, tiny, 2)]}
+                # (c) the reference cell is read through a range built during the pass: A5 = A3 + SUM(A1:A4)*0
+                cells = [{'a': 'A1', 'v': 'n:1/1'}, {'a': 'A2', 'v': 'n:7/1'},
+                         {'a': 'A3', 'f': ['P', ['+', ['*', ['n', 'n:1/2'], ['r', 2]], ['r', 0]]], 'v': z(0)},
+                         {'a': 'A4', 'f': ['O', kind, 1], 'v': z(7)},
+                         {'a': 'A5', 'f': ['+', ['r', 2], ['*', ['n', 'n:1/8'], ['S', [0, 1, 2, 3], 'A1:A4']]], 'v': z(0)}]
+                yield {'fam': 'reent', 'cells': cells, 'mode': mode, 'cfg': cfg,
+                       'ops': ev_all(2, [4], grid[:5])}
+                # (d) oracle-only: the reference names a formula cell inside the cycle (A1 = 0.5*A2 + 1, A2 -> ref A1)
+                cells = [{'a': 'A1', 'f': ['P', ['+', ['*', ['n', 'n:1/2'], ['r', 1]], ['n', 'n:1/1']]], 'v': z(0)},
+                         {'a': 'A2', 'f': ['O', kind, 0], 'v': z(0)},
+                         {'a': 'A3', 'f': ['+', ['r', 0], ['r', 1]], 'v': z(0)}]
+                yield {'fam': 'reent', 'cells': cells, 'mode': mode, 'cfg': cfg, 'oracle_only': True,
+                       'ops': ev_all(0, [2], grid) + ev_all(0, [1, 0], grid[:3])}
+                # (e) oracle-only: the reference names an acyclic formula beside the cycle; a non-converging counter
+                cells = [{'a': 'A1', 'v': 'n:3/1'},
+                         {'a': 'A2', 'f': ['*', ['r', 0], ['n', 'n:2/1']], 'v': z(6)},
+                         {'a': 'A3', 'f': ['P', ['+', ['r', 2], ['n', 'n:1/1']]], 'v': z(0)},
+                         {'a': 'A4', 'f': ['O', kind, 1], 'v': z(6)},
+                         {'a': 'A5', 'f': ['+', ['r', 2], ['r', 3]], 'v': z(0)}]
+                yield {'fam': 'reent', 'cells': cells, 'mode': mode, 'cfg': cfg, 'oracle_only': True,
+                       'ops': [_ev([4], 5, None, 2), _set(0, 4), _ev([3, 4], 3, None, 2)]}
+    # (f) another thread evaluates an unrelated iterative workbook in the middle of every pass (HANDOVER plugin)
+    for mode in ('nodata', 'stored'):
+        z = (lambda v: 'z') if mode == 'nodata' else (lambda v: tok_of(v))
+        cells = [{'a': 'A1', 'f': ['P', ['+', ['r', 0], ['n', 'n:1/1']]], 'v': z(0)},
+                 {'a': 'A2', 'f': ['+', ['H', ['r', 0]], ['r', 0]], 'v': z(0)}]
+        yield {'fam': 'reent', 'cells': cells, 'mode': mode, 'cfg': _cfg('dict', 3, 'n:1/1024'),
+               'ops': [_ev([1], None, None, 0), _ev([1], 5, None, 0), _ev([0], 1, None, 0)]}
+        cells = [{'a': 'A1', 'f': ['P', ['+', ['*', ['n', 'n:1/2'], ['H', ['r', 1]]], ['n', 'n:1/1']]], 'v': z(0)},
+                 {'a': 'A2', 'f': ['+', ['r', 0], ['n', 'n:0/1']], 'v': z(0)}]
+        yield {'fam': 'reent', 'cells': cells, 'mode': mode, 'cfg': _cfg(),
+               'ops': ev_all(0, [0], grid[:6])}
+    # random: contracting systems with a reference cell (to an input) spliced into a row
+    for _ in range(extra):
+        n = rng.randint(2, 3)
+        rows = []
+        for i in range(n):
+            rows.append([(rng.choice([Fraction(1, 2), Fraction(1, 4), Fraction(-3, 8)]), ('r', (i + 1) % n))])
+        case = lin_case(rows, [Fraction(rng.randint(-4, 4)) for _ in range(n)],
+                        [Fraction(rng.randint(1, 6)), Fraction(rng.randint(1, 6))],
+                        rng.choice(['nodata', 'stored']), _cfg(), [], stored=[Fraction(0)] * n, fam='reent')
+        if case['mode'] == 'nodata':
+            for c in case['cells'][:n]:
+                c['v'] = 'z'
+        kind = rng.choice(['offset', 'indirect'])
+        refcell = {'a': _addr(n + 2), 'f': ['O', kind, n + rng.randrange(2)], 'v': 'z'}
+        case['cells'].append(refcell)
+        j = rng.randrange(n)
+        f = case['cells'][j]['f']
+        inner = f[1] if f[0] == 'P' else f
+        inner = ['+', inner, ['*', ['n', 'n:1/4'], ['r', n + 2]]]
+        case['cells'][j]['f'] = ['P', inner] if f[0] == 'P' else inner
+        case['ops'] = [_ev(rng.sample(range(n), rng.randint(1, n)), rng.choice([1, 2, 3, 5, None]),
+                           rng.choice([tiny, 'n:1/1024', None]), 0) for _k in range(rng.randint(1, 3))]
+        yield case
+
+
 def _cases(tier, rng):
     thorough = tier == 'thorough'
     yield from tie_cases()
+    yield from reent_cases(rng, 200 if thorough else 30)
     yield from odd_cases()
     yield from grid_cases()
     yield from small_scope()
@@ -747,9 +909,11 @@ def _eval_expr(e, val):
         return F(e[1])
     if k == 'r':
         return val(e[1])
+    if k == 'O':
+        return val(e[2])
     if k == 'S':
         return sum((n_(val(j)) for j in e[1]), Fraction(0))
-    if k == 'P':
+    if k in 'PH':
         return _eval_expr(e[1], val)
     if k in '+-*':
         a, b = n_(_eval_expr(e[1], val)), n_(_eval_expr(e[2], val))
@@ -873,6 +1037,8 @@ def nontrivial(case):
 
 def bucket(case):
     fam = case['fam']
+    if fam == 'reent':
+        return 'reent:oracle-only' if case.get('oracle_only') else 'reent'
     if fam == 'lin':
         if case['cfg']['how'] == 'dict':
             return 'lin:dictcfg'
